@@ -121,7 +121,7 @@ def ob_classical(A, B, X, Y):
         return out
     return Obligation("classical_value.is_max_over_all_answer_function_pairs_and_leaves_game_unchanged", cfg, build, call, oracle, post=post,
                       assume=assume, valid=valid, witness=witness, objzeros=(NG,), max_paths=4096, neg_control=False, tv=True,
-                      weight=(min(A ** X, B ** Y)) ** 2)
+                      weight=(min(A ** X, B ** Y)) ** 2, wall_cap_s=2400)
 
 
 class _InlinePool:
